@@ -366,5 +366,11 @@ PROPS["C10"]["rules"] = PROPS["C10"]["rules"] + [rules_idioms.rule_nc_name_equal
 PROPS["C10"]["explanation"] += " (NCNAMEEQ) every look-up by name in the SD layer compares the length of the counted name as well as its bytes (no prefix matches between attribute, dimension or variable names). (GRATTR) changing an image's attribute also sets gr_modified, without which GRend skips the images."
 PROPS["C15"]["rules"] = PROPS["C15"]["rules"] + [rules_idioms.rule_nc_name_equal]
 
+PROPS["C15"]["rules"] = PROPS["C15"]["rules"] + [rules_attr.rule_attr_hdftype]
+PROPS["C15"]["explanation"] += " (ATTRTYPE) an attribute re-typed in place through the netCDF-style call (NC_aput) gets its HDF number type updated too, so SD reports the type the nc call stored; (NCNAMEEQ) names are compared with their lengths in every SD-layer look-up."
+
+PROPS["C17"]["rules"] = PROPS["C17"]["rules"] + [rules_dd.rule_open_cache_init]
+PROPS["C17"]["explanation"] += " (OPENINIT) Hopen stores the caching flag and clears the dirty flags on every path that makes a file record live, for existing files as for new ones. (ENDEXT) space reserved by advancing the end-of-file mark is recorded for extension."
+
 NOT_APPLICABLE = {}
 
